@@ -141,7 +141,8 @@ def to_scenario(hist, matrices):
     for i, c in enumerate(hist):
         cid = "c%d" % i
         if c["op"] in ("deploy", "rollout_deploy"):
-            targets = [{"name": H(t["name"]), "probes": ["ok"] if t["healthy"] else ["refused"]} for t in c["targets"]]
+            # ("probes": an explicit answer script for a target the model counts as not becoming healthy in time)
+            targets = [{"name": H(t["name"]), "probes": t.get("probes") or (["ok"] if t["healthy"] else ["refused"])} for t in c["targets"]]
             st = {"op": c["op"], "id": cid, "name": H(c["name"]), "targets": targets,
                   "deploy_timeout": DEPLOY_TIMEOUT, "drain_timeout": 1 * SEC}
             if c["op"] == "deploy":
